@@ -581,6 +581,41 @@ func findStub(in *Interp, fn *ssa.Function) StubFn {
 					}
 					return nil
 				}
+			case "Map.Load", "Map.Store", "Map.LoadOrStore", "Map.Delete":
+				// sync.Map as an association list (sequential model; key equality as for built-in maps)
+				return func(in *Interp, fn *ssa.Function, a []Val) Val {
+					p := a[0].(Ptr)
+					key := fmt.Sprintf("syncmap:%d:%v", p.Obj.ID, p.Path)
+					if in.syncMaps == nil {
+						in.syncMaps = map[string]*MapObj{}
+					}
+					m := in.syncMaps[key]
+					if m == nil {
+						m = &MapObj{}
+						in.syncMaps[key] = m
+					}
+					switch name {
+					case "Store":
+						in.mapSet(m, a[1], a[2])
+						return nil
+					case "Delete":
+						if i := in.mapFind(m, a[1]); i >= 0 {
+							m.Entries = append(m.Entries[:i:i], m.Entries[i+1:]...)
+						}
+						return nil
+					case "Load":
+						if i := in.mapFind(m, a[1]); i >= 0 {
+							return TupleV{m.Entries[i].V, BoolConst(true)}
+						}
+						return TupleV{IfaceV{}, BoolConst(false)}
+					default: // LoadOrStore
+						if i := in.mapFind(m, a[1]); i >= 0 {
+							return TupleV{m.Entries[i].V, BoolConst(true)}
+						}
+						in.mapSet(m, a[1], a[2])
+						return TupleV{a[2], BoolConst(false)}
+					}
+				}
 			case "Once.Do":
 				return func(in *Interp, fn *ssa.Function, a []Val) Val {
 					p := a[0].(Ptr)
